@@ -9,6 +9,7 @@ functions.
 from __future__ import annotations
 
 import ast
+import re
 import os
 
 from .core import PKG, REPO, AnalysisError
@@ -300,18 +301,62 @@ def _namedtuples_to_tuples(tree):
                 nts[st.name] = [x.target.id for x in body]
     if not nts:
         return
-    stored = {n.attr for n in ast.walk(tree) if isinstance(n, ast.Attribute) and isinstance(n.ctx, (ast.Store, ast.Del))}
-    counts = {}
-    for fields in nts.values():
-        for f in fields:
-            counts[f] = counts.get(f, 0) + 1
-    index = {}
-    for name, fields in nts.items():
-        for i, f in enumerate(fields):
-            if counts[f] == 1 and f not in stored:
-                index[f] = i
+    # type-directed: `x.field` is rewritten only where x is known to hold one of these tuples - a variable / parameter annotated with the class,
+    # a variable bound to `NT(...)` or to the result of a function whose return annotation names the class, or such a call itself
+    def nt_in(ann):
+        if ann is None:
+            return None
+        txt = ast.unparse(ann) if not (isinstance(ann, ast.Constant) and isinstance(ann.value, str)) else ann.value
+        hits = [n_ for n_ in nts if re.search(r"(?<![A-Za-z0-9_])" + re.escape(n_) + r"(?![A-Za-z0-9_])", txt)]
+        return hits[0] if len(hits) == 1 else None
+    ret_nt = {}
+    for f_ in ast.walk(tree):
+        if isinstance(f_, ast.FunctionDef):
+            h = nt_in(f_.returns)
+            if h:
+                ret_nt[f_.name] = h
+
+    def call_nt(v):
+        if isinstance(v, ast.Call):
+            if isinstance(v.func, ast.Name) and v.func.id in nts:
+                return v.func.id
+            nm = v.func.id if isinstance(v.func, ast.Name) else (v.func.attr if isinstance(v.func, ast.Attribute) else None)
+            return ret_nt.get(nm)
+        return None
+
+    def typed_vars(scope):
+        tv, bad = {}, set()
+        if isinstance(scope, ast.FunctionDef):
+            for a in scope.args.args + scope.args.kwonlyargs:
+                h = nt_in(a.annotation)
+                if h:
+                    tv[a.arg] = h
+        for n in ast.walk(scope):
+            if isinstance(n, ast.AnnAssign) and isinstance(n.target, ast.Name):
+                h = nt_in(n.annotation)
+                if h:
+                    tv[n.target.id] = h
+            elif isinstance(n, (ast.Assign, ast.NamedExpr)):
+                tgts = n.targets if isinstance(n, ast.Assign) else [n.target]
+                for t in tgts:
+                    if isinstance(t, ast.Name):
+                        h = call_nt(n.value)
+                        if h:
+                            tv.setdefault(t.id, h)
+                        elif not (isinstance(n.value, ast.Constant) and n.value.value is None) and not (isinstance(n.value, ast.Name) and n.value.id in tv):
+                            bad.add(t.id)
+        return {k: v for k, v in tv.items() if k not in bad or any(isinstance(n, ast.AnnAssign) and isinstance(n.target, ast.Name) and n.target.id == k for n in ast.walk(scope))}
 
     class T(ast.NodeTransformer):
+        def __init__(self):
+            self.tv = [typed_vars(tree)]
+
+        def visit_FunctionDef(self, n):
+            self.tv.append({**self.tv[-1], **typed_vars(n)})
+            self.generic_visit(n)
+            self.tv.pop()
+            return n
+
         def visit_Call(self, n):
             self.generic_visit(n)
             if isinstance(n.func, ast.Name) and n.func.id in nts and not any(isinstance(a, ast.Starred) for a in n.args):
@@ -326,9 +371,15 @@ def _namedtuples_to_tuples(tree):
             return n
 
         def visit_Attribute(self, n):
+            holder = None
+            if isinstance(n.ctx, ast.Load):
+                if isinstance(n.value, ast.Name):
+                    holder = self.tv[-1].get(n.value.id)
+                else:
+                    holder = call_nt(n.value)
             self.generic_visit(n)
-            if isinstance(n.ctx, ast.Load) and n.attr in index and isinstance(n.value, ast.Name):
-                return ast.copy_location(ast.Subscript(value=n.value, slice=ast.Constant(value=index[n.attr]), ctx=ast.Load()), n)
+            if holder and n.attr in nts[holder]:
+                return ast.copy_location(ast.Subscript(value=n.value, slice=ast.Constant(value=nts[holder].index(n.attr)), ctx=ast.Load()), n)
             return n
     T().visit(tree)
 
@@ -389,6 +440,59 @@ def _static_to_method(tree):
                 m._was_static = True  # type: ignore[attr-defined]
 
 
+def _inline_self_aliases(tree):
+    """`f = self._helper` / `table = self.precedence_map` followed by uses of the local reads as the attribute itself, when the attribute is never
+    re-bound outside __init__ (a method, a class-level table, an attribute set once by the constructor): the local is then only another name for
+    the same object for the whole call.  (A local that snapshots an attribute which methods re-assign - a cursor, a counter - is left alone.)"""
+    import copy
+    for c in ast.walk(tree):
+        if not isinstance(c, ast.ClassDef):
+            continue
+        rebound = set()
+        for m in c.body:
+            if not isinstance(m, ast.FunctionDef) or m.name == "__init__" or not m.args.args:
+                continue
+            sn = m.args.args[0].arg
+            for n in ast.walk(m):
+                if isinstance(n, ast.Attribute) and isinstance(n.ctx, (ast.Store, ast.Del)) and isinstance(n.value, ast.Name) and n.value.id == sn:
+                    rebound.add(n.attr)
+        for m in c.body:
+            if not isinstance(m, ast.FunctionDef) or not m.args.args:
+                continue
+            sn = m.args.args[0].arg
+            a_ = m.args
+            params = {x.arg for x in a_.posonlyargs + a_.args + a_.kwonlyargs} | ({a_.vararg.arg} if a_.vararg else set()) | ({a_.kwarg.arg} if a_.kwarg else set())
+            stores = {}
+            for n in ast.walk(m):
+                if isinstance(n, ast.Name) and isinstance(n.ctx, (ast.Store, ast.Del)):
+                    stores[n.id] = stores.get(n.id, 0) + 1
+                elif isinstance(n, (ast.Global, ast.Nonlocal)):
+                    for nm in n.names:
+                        stores[nm] = stores.get(nm, 0) + 2
+                elif isinstance(n, (ast.FunctionDef, ast.Lambda)) and n is not m:
+                    b_ = n.args
+                    for nm in [x.arg for x in b_.posonlyargs + b_.args + b_.kwonlyargs] + ([b_.vararg.arg] if b_.vararg else []) + ([b_.kwarg.arg] if b_.kwarg else []):
+                        stores[nm] = stores.get(nm, 0) + 2       # a nested scope re-uses the name: leave it alone
+            aliases = {}
+            for st in list(m.body):
+                if isinstance(st, ast.Assign) and len(st.targets) == 1 and isinstance(st.targets[0], ast.Name) and isinstance(st.value, ast.Attribute) \
+                        and isinstance(st.value.value, ast.Name) and st.value.value.id == sn and st.value.attr not in rebound \
+                        and stores.get(st.targets[0].id) == 1 and st.targets[0].id not in params and sn not in stores:
+                    aliases[st.targets[0].id] = (st, st.value)
+            if not aliases:
+                continue
+
+            class T(ast.NodeTransformer):
+                def visit_Name(self, n):
+                    if isinstance(n.ctx, ast.Load) and n.id in aliases:
+                        return ast.copy_location(copy.deepcopy(aliases[n.id][1]), n)
+                    return n
+            gone = {id(st) for st, _ in aliases.values()}
+            m.body = [st for st in m.body if id(st) not in gone] or [ast.copy_location(ast.Pass(), m)]
+            for i, st in enumerate(m.body):
+                m.body[i] = T().visit(st)
+
+
 class Module:
     def __init__(self, name, path, src=None):
         self.name = name
@@ -406,6 +510,7 @@ class Module:
         _inline_class_tuples(self.tree)
         self.tree = _ChainsToMatch().visit(self.tree)     # one normal form for dispatch on a value: `if x == A: .. elif x == B: .. else: ..` (3+ arms) reads as match/case
         _static_to_method(self.tree)
+        _inline_self_aliases(self.tree)
         _TablesToMatch(self.tree).run()
         self.tree = _CharTestsToIn().visit(self.tree)
         ast.fix_missing_locations(self.tree)
